@@ -34,7 +34,7 @@ CLAIMS = {
         "stop at end of input - a regenerated fact); refusal of every nonsense kind on every path it can arrive on (zero_duration_refused_yaml/_text, "
         "zero_meter_flag_refused, bad_value_refuses_instance, tempo_zero_refused, unknown_dynamic_refused incl. --velocity, unknown_chord_refused, "
         "unknown_modifier_refused, key_without_scale_refused, mixed_notation_refused, empty_piece_refused, played_piece_is_sane, written_piece_was_valid). "
-        "Observed on the real binary by the `robust` stream (5,300 / 36,000 runs): every subcommand on random, truncated, mutated, repeated, over-long input on "
+        "Observed on the real binary by the `robust` stream (5,300 / 36,000 runs); panic_sites_accounted: every `Must...`/`panic`/`logx.Panic` call of /repo, with its arguments as written, is regenerated on every run and must equal the list accounted for one by one (a new such call or a constant argument turned into a variable breaks the obligation): every subcommand on random, truncated, mutated, repeated, over-long input on "
         "stdin and as FILE, 80 YAML shapes, every flag with 46 hostile values and random combinations, arbitrary bytes as dictionary files, and a "
         "(nonsense kind x path) matrix planted at the start, middle and end of valid pieces; oracles: no panic/fatal/signal/time-out (20 s, re-run alone with "
         "90 s before calling it a hang), failure => exit != 0, stderr diagnostic, empty stdout and empty -o file, planted nonsense => refused.",
@@ -133,7 +133,10 @@ CLAIMS = {
    text="Lean theorems about the tracks the model of `crd write` produces, for any document, 1..65535 tracks, any instrument/program: track_count, "
         "one_eot_and_last, timing_meta_only_in_first_track (every meta event is routed to track 0), notes_paired_per_track (per track and instance, the "
         "note-offs are for exactly the keys and routing indices of the note-ons, in order), header_bytes (MThd, 6, format 0 iff one track, count, division), "
-        "delta_times_fit (every delta time of every track is at most the piece length <= 0x0FFFFFFF, and gomidi's variable-length encoding of it is read back "
+        "written_file_parses / write_output_parses (Crd/Props/C08Bytes.lean: for EVERY document `crd write` accepts, the strict reader written from the SMF "
+        "specification accepts the encoder's bytes and returns format 0/1, division 960, `--track` tracks and exactly the written events of every track - "
+        "running status on both sides, meta lengths, key-signature range for every supported key, chunk lengths; hypotheses: texts < 2^28 bytes, chunks < 2^32 "
+        "bytes, the format's own limits), delta_times_fit (every delta time of every track is at most the piece length <= 0x0FFFFFFF, and gomidi's variable-length encoding of it is read back "
         "exactly by the strict reader: encoder against the specification's decoder for EVERY value that can occur), too_long_refused (D22 fix). "
         "The strict SMF reader (Crd.Spec.parseSMF, written from the specification, shares no code with the encoder or gomidi) is executed on the REAL bytes of "
         "every generated file on every run, together with the note-balance and first-track checks (oracle smf-strict). Tie: byte equality of real output and "
